@@ -27,8 +27,8 @@ struct Op { int code; std::string key, val; };
 struct Prog { int kind; std::vector<std::string> init; std::vector<std::vector<Op>> thr; bool unique = false; size_t limit = 0; };
 
 const char *opname(int kind, int code) {
-    static const char *seq[] = {"addlast", "addfirst", "popfirst", "poplast", "getfirst(copy)", "clear", "toarray", "removefirst", "addat(1)", "getlast(copy)", "tostring"};
-    static const char *map[] = {"put", "get(copy)", "remove", "clear", "lock+walk+unlock"};
+    static const char *seq[] = {"addlast", "addfirst", "popfirst", "poplast", "getfirst(copy)", "clear", "toarray", "removefirst", "addat(1)", "getlast(copy)", "tostring", "unlocked copying walk"};
+    static const char *map[] = {"put", "get(copy)", "remove", "clear", "lock+walk+unlock", "unlocked copying walk"};
     return kind <= K_LIST ? seq[code] : map[code];
 }
 std::string opstr(int kind, const Op &o) { std::string s = opname(kind, o.code); if (kind <= K_LIST) { if (o.code == 0 || o.code == 1 || o.code == 8) s += "(" + o.val + ")"; } else if (o.code <= 2) { s += "(" + o.key + (o.code == 0 ? "," + o.val : "") + ")"; } return s; }
@@ -51,6 +51,7 @@ struct Model {
                 case 7: { if (seq.empty()) return "F"; seq.erase(seq.begin()); return "T"; }
                 case 8: { if (limit && seq.size() >= limit) return "F"; if (seq.size() < 1) return "F"; seq.insert(seq.begin() + 1, o.val); return "T"; }
                 case 9: return seq.empty() ? "NULL" : seq.back();
+                case 11: return "";        // unlocked walk: every step is atomic on its own, the whole is not a snapshot: result not asserted
                 default: { if (seq.empty()) return "NULL"; std::string r; for (auto &e : seq) r += e; return r; }
             }
         }
@@ -60,6 +61,7 @@ struct Model {
             case 1: { long i = find(o.key); return i < 0 ? "NULL" : kv[(size_t)i].second; }
             case 2: { size_t n = 0; for (size_t i = 0; i < kv.size();) if (kv[i].first == o.key) { kv.erase(kv.begin() + (long)i); n++; } else i++; return kind == K_LTBL ? std::to_string(n) : (n ? "T" : "F"); }
             case 3: kv.clear(); return "";
+            case 5: return "";             // unlocked copying walk: result not asserted (see above)
             default: return contents();
         }
     }
@@ -203,6 +205,7 @@ std::string do_op(const Prog &p, void *c, const Op &o) {
                 case 6: { r = qvector_toarray(v, &n); if (!r) return "NULL"; std::string s((char *)r, n * 4); free(r); return s; }
                 case 7: return qvector_removefirst(v) ? "T" : "F";
                 case 8: return qvector_addat(v, 1, e.data()) ? "T" : "F";
+                case 11: { qvector_obj_t ob; memset(&ob, 0, sizeof ob); size_t g = 0; while (qvector_getnext(v, &ob, true) && g++ < 100) free(ob.data); return ""; }
                 default: r = qvector_getlast(v, true);
             }
             if (!r) return "NULL"; std::string s((char *)r, 4); free(r); return s; }
@@ -218,6 +221,7 @@ std::string do_op(const Prog &p, void *c, const Op &o) {
                 case 7: return qlist_removefirst(l) ? "T" : "F";
                 case 8: return qlist_addat(l, 1, e.data(), 4) ? "T" : "F";
                 case 9: r = qlist_getlast(l, &n, true); break;
+                case 11: { qlist_obj_t ob; memset(&ob, 0, sizeof ob); size_t g = 0; while (qlist_getnext(l, &ob, true) && g++ < 100) free(ob.data); return ""; }
                 default: { char *s = qlist_tostring(l); if (!s) return "NULL"; std::string x = s; free(s); return x; }
             }
             if (!r) return "NULL"; std::string s((char *)r, n); free(r); return s; }
@@ -227,6 +231,7 @@ std::string do_op(const Prog &p, void *c, const Op &o) {
                 case 1: { char *s = qtreetbl_getstr(t, o.key.c_str(), true); if (!s) return "NULL"; std::string x = s; free(s); return x; }
                 case 2: return qtreetbl_remove(t, o.key.c_str()) ? "T" : "F";
                 case 3: qtreetbl_clear(t); return "";
+                case 5: return "";      // qtreetbl_getnext takes no lock by itself (documented: lock() around the walk): nothing to run unlocked
                 default: { std::string x; qtreetbl_obj_t ob; memset(&ob, 0, sizeof ob); qtreetbl_lock(t); size_t g = 0; while (qtreetbl_getnext(t, &ob, false) && g++ < 100) { x += std::string((char *)ob.name) + "=" + std::string((char *)ob.data) + ";"; } qtreetbl_unlock(t); return x; }
             } }
         case K_HASH: { qhashtbl_t *t = (qhashtbl_t *)c;
@@ -235,6 +240,7 @@ std::string do_op(const Prog &p, void *c, const Op &o) {
                 case 1: { char *s = qhashtbl_getstr(t, o.key.c_str(), true); if (!s) return "NULL"; std::string x = s; free(s); return x; }
                 case 2: return qhashtbl_remove(t, o.key.c_str()) ? "T" : "F";
                 case 3: qhashtbl_clear(t); return "";
+                case 5: { qhashtbl_obj_t ob; memset(&ob, 0, sizeof ob); size_t g = 0; while (qhashtbl_getnext(t, &ob, true) && g++ < 100) { volatile size_t l = strlen(ob.name) + ob.size; (void)l; free(ob.name); free(ob.data); } return ""; }
                 default: { std::vector<std::string> v; qhashtbl_obj_t ob; memset(&ob, 0, sizeof ob); qhashtbl_lock(t); size_t g = 0; while (qhashtbl_getnext(t, &ob, false) && g++ < 100) v.push_back(std::string(ob.name) + "=" + std::string((char *)ob.data)); qhashtbl_unlock(t); std::sort(v.begin(), v.end()); std::string x; for (auto &e : v) x += e + ";"; return x; }
             } }
         default: { qlisttbl_t *t = (qlisttbl_t *)c;
@@ -243,6 +249,7 @@ std::string do_op(const Prog &p, void *c, const Op &o) {
                 case 1: { char *s = qlisttbl_getstr(t, o.key.c_str(), true); if (!s) return "NULL"; std::string x = s; free(s); return x; }
                 case 2: return std::to_string(qlisttbl_remove(t, o.key.c_str()));
                 case 3: qlisttbl_clear(t); return "";
+                case 5: { qlisttbl_obj_t ob; memset(&ob, 0, sizeof ob); size_t g = 0; while (qlisttbl_getnext(t, &ob, nullptr, true) && g++ < 100) { volatile size_t l = strlen(ob.name) + ob.size; (void)l; free(ob.name); free(ob.data); } return ""; }
                 default: { std::string x; qlisttbl_obj_t ob; memset(&ob, 0, sizeof ob); qlisttbl_lock(t); size_t g = 0; bool fwd = t->lookupforward; std::vector<std::string> v; while (qlisttbl_getnext(t, &ob, nullptr, false) && g++ < 100) v.push_back(std::string(ob.name) + "=" + std::string((char *)ob.data)); qlisttbl_unlock(t); if (!fwd) std::reverse(v.begin(), v.end()); for (auto &e : v) x += e + ";"; return x; }
             } }
     }
@@ -367,6 +374,21 @@ void verdict(Ctx &c, const Prog &p, const Exec &ex) {
     }
 }
 
+// A copying walk WITHOUT the container lock is documented as allowed next to concurrent insertion
+// and value replacement; next to concurrent deletion the documentation's promise ("set newmem if
+// deletion is expected") does not hold in the library as pinned (the cursor keeps a pointer to the
+// next node), and the listed property does not cover it.  Programs that contain such a walk are
+// therefore restricted to non-destructive company: removals / pops / clears become copying gets,
+// and a list table must not be UNIQUE (its put deletes the entries it replaces).
+bool destructive(int kind, int code) { return kind <= K_LIST ? (code == 2 || code == 3 || code == 5 || code == 7) : (code == 2 || code == 3); }
+void sanitize_unlocked(Prog &p) {
+    bool has = false;
+    for (auto &t : p.thr) for (auto &o : t) if (o.code == (p.kind <= K_LIST ? 11 : 5)) has = true;
+    if (!has) return;
+    p.unique = false;
+    for (auto &t : p.thr) for (auto &o : t) if (destructive(p.kind, o.code)) o.code = p.kind <= K_LIST ? 4 : 1;
+}
+
 Prog gen_prog(Src &s) {
     Prog p;
     p.kind = (int)s.pick({4, 3, 2, 2, 3});
@@ -380,12 +402,13 @@ Prog gen_prog(Src &s) {
         std::vector<Op> ops; int n = (int)s.range(1, 3);
         for (int i = 0; i < n; i++) {
             Op o;
-            if (p.kind <= K_LIST) { o.code = (int)s.pick({5, 3, 4, 3, 2, 1, 3, 2, 2, 1, p.kind == K_LIST ? 2 : 0}); o.val = "v" + std::to_string(vc++); }
-            else { o.code = (int)s.pick({5, 3, 3, 1, 2}); o.key = "k" + std::to_string(s.range(0, 2)); o.val = "v" + std::to_string(vc++); }
+            if (p.kind <= K_LIST) { o.code = (int)s.pick({5, 3, 4, 3, 2, 1, 3, 2, 2, 1, p.kind == K_LIST ? 2 : 0, 2}); o.val = "v" + std::to_string(vc++); }
+            else { o.code = (int)s.pick({5, 3, 3, 1, 2, p.kind == K_TREE ? 0 : 2}); o.key = "k" + std::to_string(s.range(0, 2)); o.val = "v" + std::to_string(vc++); }
             ops.push_back(o);
         }
         p.thr.push_back(ops);
     }
+    sanitize_unlocked(p);
     return p;
 }
 
@@ -405,23 +428,31 @@ void *free_worker(void *a) {
 void run_free(Src &s, Ctx &c) {
     Prog p = gen_prog(s);
     int iters = (int)s.range(20, 200);
-    void *cont = create(p);
-    if (!cont) throw CaseStop{"constructor failed"};
-    for (size_t i = 0; i < p.init.size(); i++) { Op o; o.code = 0; o.key = "k" + std::to_string(i); o.val = p.init[i]; do_op(p, cont, o); }
+    // a third of the cases: every thread works on a container of its own (no sharing at all): any
+    // race then is on state the library shares behind the containers' backs
+    bool priv = s.chance(1, 3);
+    std::vector<void *> conts;
+    for (size_t t = 0; t < (priv ? p.thr.size() : 1); t++) {
+        void *cont = create(p);
+        if (!cont) throw CaseStop{"constructor failed"};
+        // private containers get a few more elements so that the keys the threads work on (k0..k2) sit inside a non-trivial structure
+        for (size_t i = 0; i < (priv ? 9 : p.init.size()); i++) { Op o; o.code = 0; o.key = i < 3 ? "k" + std::to_string(i) : std::string(1, (char)('a' + (i * 7) % 26)) + std::to_string(i); o.val = i < p.init.size() ? p.init[i] : "w" + std::to_string(i); do_op(p, cont, o); }
+        conts.push_back(cont);
+    }
     int before = g_tsan_reports.load();
     pthread_barrier_t bar; pthread_barrier_init(&bar, nullptr, (unsigned)p.thr.size());
     std::vector<pthread_t> th(p.thr.size()); std::vector<FreeArg> fa(p.thr.size());
-    for (size_t i = 0; i < p.thr.size(); i++) { fa[i] = FreeArg{&p, cont, (int)i, iters, &bar}; pthread_create(&th[i], nullptr, free_worker, &fa[i]); }
+    for (size_t i = 0; i < p.thr.size(); i++) { fa[i] = FreeArg{&p, priv ? conts[i] : conts[0], (int)i, iters, &bar}; pthread_create(&th[i], nullptr, free_worker, &fa[i]); }
     for (size_t i = 0; i < p.thr.size(); i++) pthread_join(th[i], nullptr);
     pthread_barrier_destroy(&bar);
-    destroy(p, cont);
-    std::string d = std::string(kname(p.kind)) + " free-running x" + std::to_string(iters);
+    for (void *cont : conts) destroy(p, cont);
+    std::string d = std::string(kname(p.kind)) + (priv ? " (one private container per thread)" : "") + " free-running x" + std::to_string(iters);
     for (size_t t = 0; t < p.thr.size(); t++) { d += " | T" + std::to_string(t) + ":"; for (auto &o : p.thr[t]) d += " " + opstr(p.kind, o); }
     c.op("%s", d.c_str());
     int n = g_tsan_reports.load() - before;
     if (n > 0) c.fail(LIN, (std::string("conc:data-race:") + kname(p.kind)).c_str(), "ThreadSanitizer reported %d data race(s) while running: %s", n, d.c_str());
     c.nontrivial = p.thr.size() >= 2;
-    c.tag(std::string("freerun_") + kname(p.kind) == "" ? "x" : (std::string("freerun_") + kname(p.kind)).c_str());
+    c.tag((std::string("freerun_") + kname(p.kind)).c_str()); if (priv) c.tag("freerun_private_containers");
 }
 }  // namespace
 extern "C" void __tsan_on_report(void *) { g_tsan_reports++; }
@@ -462,7 +493,8 @@ bool vf_enumerate(Ctx &c, EnumStats &st) {
     int pbound = c.tier ? 3 : 2;
     uint64_t pidx = 0;
     for (int kind = 0; kind < K_NKIND; kind++) {
-        std::vector<int> codes = kind <= K_LIST ? std::vector<int>{0, 2, 6, 8, 5} : std::vector<int>{0, 1, 2, 4};
+        std::vector<int> codes = kind <= K_LIST ? std::vector<int>{0, 2, 6, 8, 5, 11} : std::vector<int>{0, 1, 2, 4};
+        if (kind == K_HASH || kind == K_LTBL) codes.push_back(5);
         if (kind == K_LIST) codes.push_back(10);
         // programs: thread0 = [a] or [a,b], thread1 = [c]
         for (int ninit = 0; ninit <= (kind == K_LTBL ? 3 : 1); ninit++)
@@ -475,6 +507,8 @@ bool vf_enumerate(Ctx &c, EnumStats &st) {
                 auto mk = [&](int code, int n) { Op o; o.code = code; o.key = "k" + std::to_string(n % 2); o.val = "v" + std::to_string(n); return o; };
                 std::vector<Op> t0{mk(a, 0)}; if (two) t0.push_back(mk(b, 1));
                 p.thr.push_back(t0); p.thr.push_back({mk(cc, 2)});
+                { bool has = false, des = false; for (auto &t : p.thr) for (auto &o : t) { if (o.code == (kind <= K_LIST ? 11 : 5)) has = true; if (destructive(kind, o.code)) des = true; }
+                  if (has && (des || p.unique)) continue; }
                 // DFS over all schedules
                 std::vector<int> prefix;
                 uint64_t runs = 0;
